@@ -17,7 +17,7 @@ async fn main() {
     silence_stdout();
     install_panic_hook();
     let mut sink = Sink::new(&args);
-    let n_hist = if args.thorough() { 240 } else { 24 };
+    let n_hist = if args.thorough() { 240 } else { 40 };
     let mut totals: std::collections::BTreeMap<String, u64> = Default::default();
     for h in 0..n_hist {
         if !sink.wanted() {
